@@ -413,7 +413,8 @@ class Report:
         self.cov = {"states": 0, "transitions": 0, "traces_validated_against_impl": 0, "samples": [],
                     "events_validated": 0, "modules": {}, "exhaustive": False}
         self.devs = []
-        shutil.rmtree(os.path.join(EVID, "replays", pid), ignore_errors=True)   # replays belong to one run
+        if "#" not in pid:
+            shutil.rmtree(os.path.join(EVID, "replays", pid), ignore_errors=True)   # replays belong to one run
         self.assumptions = []
         self.notes = []
 
@@ -432,6 +433,22 @@ class Report:
         for d in r["deviations"]:
             d["module"] = name
             self.devs.append(d)
+
+    def merge(self, other):
+        """Fold another report (a sub-pipeline run concurrently) into this one."""
+        for k in ("states", "transitions", "traces_validated_against_impl", "events_validated"):
+            self.cov[k] += other.cov.get(k, 0)
+        for k in ("evaluations", "distinct_nontrivial"):
+            if k in other.cov:
+                self.cov[k] = self.cov.get(k, 0) + other.cov[k]
+        if other.cov.get("rule"):
+            self.cov["rule"] = (self.cov.get("rule", "") + " " + other.cov["rule"]).strip()
+        self.cov["modules"].update(other.cov["modules"])
+        for s in other.cov["samples"]:
+            self.sample(s)
+        self.devs += other.devs
+        self.notes += other.notes
+        self.assumptions += [a for a in other.assumptions if a not in self.assumptions]
 
     def sample(self, s):
         if len(self.cov["samples"]) < 6:
@@ -496,6 +513,25 @@ class Report:
         os.makedirs(EVID, exist_ok=True)
         json.dump(ev, open(os.path.join(EVID, self.pid + ".json"), "w"), indent=1)
         return rc
+
+
+def run_pipelines(rep, pipelines, tier):
+    """Run several module pipelines concurrently (each is subprocess-bound) and merge their reports.
+    pipelines: list of (name, callable(tier, subreport))."""
+    from concurrent.futures import ThreadPoolExecutor
+    subs = []
+
+    def one(p):
+        name, fn = p
+        sub = Report(rep.pid + "#" + name, tier, rep.level)
+        fn(tier, sub)
+        return sub
+    with ThreadPoolExecutor(max_workers=len(pipelines)) as ex:
+        futs = [ex.submit(one, p) for p in pipelines]
+        for f in futs:
+            subs.append(f.result())
+    for s in subs:
+        rep.merge(s)
 
 
 def main_wrapper(pid, fn):
